@@ -1,4 +1,160 @@
-import HioModel.Store.Model
+import HioModel.Store.Refine
+import HioModel.Store.Plain
+/-!
+# C24 — keyed durable stores match a dictionary model for all keys
+
+Property theorems only.  Model: `HioModel/Store/Model.lean` (faithful to `hio.base.during` on the `fix/store`
+tree); constants and `suffix`/`unsuffix` probes regenerated from the source on every run
+(`HioModel/Gen/StoreConsts.lean`).
+
+FULL STATEMENT (what the property asks): for EVERY key set `K` and every history `ops` of put / pin / add / get /
+pop / rem / cnt over `K`,
+    `(run kind watch [] ops).1 = specRun … ops`   (the sub-db answers like `Key → Val` / `Key → List Val` /
+    `Key → ordered set`), and an operation on one key never changes what `get` of another key returns.
+* plain `Suber`: proved at full strength (`plain_refines_dict`).
+* `IoSuber` / `IoSetSuber`: FALSE without a guard on the key set (`refines_dict_fails_without_guard`, DESIGN F39:
+  with keys `k` and `k.<32 hex of 0>` a `get(k)` returns one of three values, `cnt` is 1 and the next `add`
+  overwrites a stored value; `getLast_fails_without_guard`: keys `a` and `a.b` suffice for `getLast`).  Proved for every
+  history over a key set in which no key extends another key ++ separator (`SepFree`) — `io_refines_dict_partial`,
+  `ioset_refines_dict_partial`, `other_key_unchanged_partial`.  The unguarded cases are known findings C24-K1 / C24-K2.
+* `getLast`, `getItemIter` and `cntAll` are carried by the correspondence only (not in the dictionary language here).
+* ordinals: a history may consume at most `16^32` ordinals (`totalWeight ops ≤ 16^W`); beyond that the code
+  prints a longer suffix and the model raises `OrdinalOverflow`.
+-/
 namespace Hio.Store
-theorem c24_placeholder : True := trivial
+
+/-! ## the suffix encoding -/
+
+/-- SUFFIX ORDER: for every key and all ordinals below 16^32 the byte order of the suffixed keys is the order
+of the ordinals (the fixed-width hex suffix is order-isomorphic to the ordinal). -/
+theorem suffix_order (k : Bytes) (i j : Nat) (hi : i < 16 ^ W) (hj : j < 16 ^ W) :
+    lexLt (suffix k i) (suffix k j) = true ↔ i < j := suffix_lt_iff k hi hj
+
+/-- `unsuffix` inverts `suffix` for every key (also keys containing the separator or hex digits) -/
+theorem unsuffix_suffix_id (k : Bytes) (i : Nat) (hi : i < 16 ^ W) : unsuffix (suffix k i) = some (k, i) :=
+  unsuffix_suffix k hi
+
+/-- CONTIGUITY (DESIGN A.3): in a well-formed sub-db in which no other key extends `k ++ sep`, whatever sorts at
+or after the first possible entry of `k` and before an entry of `k` is itself an entry of `k` — so every
+scan loop, which stops at the first foreign key, sees all entries of `k`. -/
+theorem contiguous_under_guard (db : Db) (hinv : Inv db) (k : Bytes) (hnc : NoChild k db) (x e : Entry)
+    (hx : x ∈ db) (he : e ∈ db) (hke : ckeyIs k e = true)
+    (hlo : lexLt x.1 (suffix k 0) = false) (hhi : lexLt x.1 e.1 = true) : ckeyIs k x = true :=
+  contiguous hinv hnc hx he hke hlo hhi
+
+/-- … and therefore the scan for `k` returns exactly the entries of `k` -/
+theorem scan_sees_all_under_guard (db : Db) (hinv : Inv db) (k : Bytes) (hnc : NoChild k db) :
+    getIoVals db k = .ok (absIo db k) := getIoVals_spec hinv hnc
+
+/-! ## refinement -/
+
+/-- PLAIN Suber = dictionary `Key → Val`, for every history over legal lmdb keys (no guard). -/
+theorem plain_refines_dict (watch : List Bytes) (hwatch : ∀ w ∈ watch, validKey w = true) (ops : List Op)
+    (out : List (Res × List Res)) (h : specRunPlain watch (fun _ => none) ops = some out) :
+    (run .plain watch [] ops).1 = out :=
+  plain_run_refines watch hwatch ops [] _ ⟨sorted_nil, fun _ => rfl⟩ out h
+
+/-- IoSuber = dictionary `Key → List Val` (partial: key set sep-prefix-free).  For every such key set `K`, every
+history over `K` in the dictionary language, and every watched key, each result and each `get` after each
+operation is what the dictionary gives. -/
+theorem io_refines_dict_partial (K : Bytes → Prop) (hK : SepFree K) (hvk : ∀ k, K k → validKey (suffix k 0) = true)
+    (watch : List Bytes) (hwatch : ∀ w ∈ watch, K w) (ops : List Op)
+    (hkeys : ∀ op ∈ ops, ∀ k, opKey op = some k → K k) (hfit : totalWeight ops ≤ 16 ^ W)
+    (out : List (Res × List Res)) (h : specRun false watch (fun _ => []) ops = some out) :
+    (run .io watch [] ops).1 = out :=
+  io_run_refines hK hvk false watch hwatch ops 0 [] _ (rel_nil K) hkeys (by omega) out h
+
+/-- IoSetSuber = dictionary `Key → insertion-ordered set` (partial: key set sep-prefix-free). -/
+theorem ioset_refines_dict_partial (K : Bytes → Prop) (hK : SepFree K) (hvk : ∀ k, K k → validKey (suffix k 0) = true)
+    (watch : List Bytes) (hwatch : ∀ w ∈ watch, K w) (ops : List Op)
+    (hkeys : ∀ op ∈ ops, ∀ k, opKey op = some k → K k) (hfit : totalWeight ops ≤ 16 ^ W)
+    (out : List (Res × List Res)) (h : specRun true watch (fun _ => []) ops = some out) :
+    (run .ioset watch [] ops).1 = out :=
+  io_run_refines hK hvk true watch hwatch ops 0 [] _ (rel_nil K) hkeys (by omega) out h
+
+/-- the ordered-set dictionary really holds sets: no operation of the specification introduces a duplicate -/
+theorem spec_ioset_add_nodup (l : List Bytes) (v : Bytes) (h : l.Nodup) :
+    (if l.contains v then l else l ++ [v]).Nodup := by
+  split
+  · exact h
+  · rename_i hc
+    rw [List.nodup_append]
+    refine ⟨h, by simp, ?_⟩
+    intro a ha b hb
+    simp only [List.mem_singleton] at hb; subst hb
+    intro e; subst e
+    exact hc (List.contains_iff_mem.mpr ha)
+
+/-- OTHER KEYS (partial, same guard): from any state that represents a dictionary over a sep-prefix-free key
+set, an operation on `k` leaves `get k'` unchanged for every other key `k'` of the set. -/
+theorem other_key_unchanged_partial (K : Bytes → Prop) (hK : SepFree K) (hvk : ∀ k, K k → validKey (suffix k 0) = true)
+    (set : Bool) (n : Nat) (db : Db) (σ : St) (hr : Rel K n db σ) (op : Op) (σ' : St) (r : Res)
+    (hspec : specIo set σ op = some (σ', r)) (k k' : Bytes) (hop : opKey op = some k) (hk : K k) (hk' : K k')
+    (hne : k' ≠ k) (hfit : n + opWeight op ≤ 16 ^ W) :
+    observe (kindOf set) (step (kindOf set) db op).1 k' = observe (kindOf set) db k' := by
+  obtain ⟨db', h1, h2⟩ := io_step_refines hK hvk set hr op hspec
+    (fun k0 h0 => by rw [hop] at h0; cases h0; exact hk) hfit
+  rw [h1, observe_spec hK set h2 hk', observe_spec hK set hr hk', specIo_frame hspec hop hne]
+
+/-! ## the guard is needed: F39 (replayed on the real code in `corpus()`) -/
+
+def kK : Bytes := [107]                       -- "k"
+def kK0 : Bytes := suffix kK 0                -- "k.00000000000000000000000000000000": a key that looks like entry 0 of "k"
+def f39ops : List Op :=
+  [.add kK [118, 48], .add kK [118, 49], .add kK [118, 50], .add kK0 [119, 48], .get kK, .cnt kK, .add kK [118, 51], .get kK]
+
+/-- the dictionary: three values, count 3, then four values -/
+theorem f39_dictionary_says :
+    (specRun false [] (fun _ => []) f39ops).map (·.map (·.1)) =
+      some [.bool true, .bool true, .bool true, .bool true, .vals [[118, 48], [118, 49], [118, 50]], .nat 3, .bool true,
+            .vals [[118, 48], [118, 49], [118, 50], [118, 51]]] := by decide +kernel
+
+/-- WITNESS (F39): the store returns ONE of the three values, counts 1, and the next add recomputes ordinal 1 and
+overwrites the stored `v1` (final raw content) -/
+theorem refines_dict_fails_without_guard :
+    (run .io [] [] f39ops).1.map (·.1) =
+      [.bool true, .bool true, .bool true, .bool true, .vals [[118, 48]], .nat 1, .bool true, .vals [[118, 48]]] ∧
+    (run .io [] [] f39ops).2 =
+      [(suffix kK 0, [118, 48]), (suffix kK0 0, [119, 48]), (suffix kK 1, [118, 51]), (suffix kK 2, [118, 50])] := by
+  decide +kernel
+
+/-- the witness key set violates the guard -/
+theorem f39_keys_not_sepfree : ¬ SepFree (fun k => k = kK ∨ k = kK0) := by
+  intro h
+  exact h kK kK0 (Or.inl rfl) (Or.inr rfl) (by decide) (by decide +kernel)
+
+/-- WITNESS (K2): with keys "a" and "a.b", `getLast "a"` answers None although "a" holds a value -/
+theorem getLast_fails_without_guard :
+    (run .io [[97]] [] [.add [97] [49], .add [97, 46, 98] [50], .last [97]]).1 =
+      [(.bool true, [.vals [[49]]]), (.bool true, [.vals [[49]]]), (.opt none, [.vals [[49]]])] := by decide +kernel
+
+/-! ## regenerated constants and probes (re-checked against the source on every run) -/
+
+theorem gen_maxSuffix : maxSuffix + 1 = 16 ^ W := by decide +kernel
+theorem gen_sep_not_hex : hexVal sepB = none := by decide
+theorem gen_width_pos : 0 < W := by decide
+
+/-- the model's `suffix` / `unsuffix` agree with `Duror.suffix` / `Duror.unsuffix` on the probe table -/
+theorem gen_suffix_probes :
+    Hio.Gen.suffixProbes.all (fun p => suffix p.1 p.2.1 == p.2.2.1 && unsuffix p.2.2.1 == some (p.2.2.2.1, p.2.2.2.2)) = true := by
+  decide +kernel
+
+/-! ## the hypotheses are satisfiable -/
+
+/-- a sep-prefix-free key set with keys that are prefixes of each other, contain the separator and hex digits -/
+def exK : Bytes → Prop := fun k => k = [97] ∨ k = [97, 98] ∨ k = [98, 46, 99] ∨ k = [48, 48] ∨ k = [97, 45]
+
+example : SepFree exK := by
+  intro k k' hk hk' _
+  rcases hk with rfl | rfl | rfl | rfl | rfl <;> rcases hk' with rfl | rfl | rfl | rfl | rfl <;> decide
+
+example : ∀ k, exK k → validKey (suffix k 0) = true := by
+  intro k hk
+  rcases hk with rfl | rfl | rfl | rfl | rfl <;> decide +kernel
+
+/-- a non-trivial history over that key set to which `ioset_refines_dict_partial` applies -/
+example : (specRun true [[97], [97, 98]] (fun _ => [])
+    [.add [97] [1], .add [97, 98] [2], .putL [97] [[1], [3], [3]], .pop [97], .remv [97] [3], .get [97]]).isSome = true := by
+  decide +kernel
+
 end Hio.Store
